@@ -20,6 +20,7 @@ FUNCTIONS = {
             'PlateSlicer.remove', 'PlateSlicer.fill_to', 'Plate.transfer', 'Plate.remove', 'Plate.fill_to',
             'Container.transfer', 'Plate.__getitem__'],
     'C11': ['Container.fill_to', 'Container._add', 'Container._self_add', 'Container.dilute'],
+    'C12': ['Container.create_solution_from', 'Unit.parse_concentration', 'Unit.parse_quantity'],
     'C04': ['Container.__init__', 'Container._self_add', 'Container._add', 'Container._transfer', 'Container.transfer',
             'Container._transfer_slice', 'Container.remove', 'Container.fill_to', 'Container.get_volume',
             'Container.get_concentration', 'PlateSlicer._transfer', 'PlateSlicer.remove', 'PlateSlicer.fill_to',
@@ -53,6 +54,8 @@ def tasks(tier, pid):
         t += [('plate_unary',) + c for c in PO.unary_cases(tier)]
     if pid in ('C11', 'C03', 'C04', 'C10'):
         t += [('sol', 'dilute', c) for c in SOL.OPS['dilute'].cases(tier)]
+    if pid in ('C12', 'C03', 'C04'):
+        t += [('sol', 'create_from', c) for c in SOL.OPS['create_from'].cases(tier)]
     if pid == 'C03':
         t.append(('float_bounded', 60 if tier == 'quick' else 2000))
     if pid == 'C10':
@@ -130,7 +133,7 @@ def canaries(pid):
         for I, out in vc.explore(body, contracts=ctr):
             res += [dict(r, name=f'{pid}/' + r['name']) for r in vc.discharge(I, 'Container._transfer/', 'canary', 10000)
                     if r['kind'].startswith('canary')]
-    if pid in ('C17', 'C11', 'C07'):
+    if pid in ('C17', 'C11', 'C07', 'C12', 'C05'):
         def body2(I):
             clib.assume_world(I)
             C = clib.mk_container(I, 'C', 'inf', keys, [True])
